@@ -1048,8 +1048,8 @@ fn main() {
     let pair_cfgs: Vec<usize> = if quick {
         vec![0, 2, 6, 9, 15, 23, 27, 30, 35]
     } else {
-        // every second global configuration, every per-type / combined one
-        all_cfgs.iter().copied().filter(|i| *i >= 24 || i % 2 == 0).collect()
+        // every third global configuration, every per-type / combined one
+        all_cfgs.iter().copied().filter(|i| *i >= 24 || i % 3 == 0).collect()
     };
     let pair_shapes: Vec<&'static str> = if quick {
         vec!["q1", "q5", "cname1+q5", "q2+ns7+glue1", "mx2", "neg1-full", "neg3", "err-timeout"]
@@ -1077,7 +1077,7 @@ fn main() {
     let st = run(
         GridSpec {
             name: "triple",
-            cfgs: if quick { vec![0, 9, 27] } else { vec![0, 2, 6, 9, 23, 27, 30, 35] },
+            cfgs: if quick { vec![0, 9, 27] } else { vec![0, 9, 23, 27, 35] },
             query_sets: vec![vec![0, 1, 2]],
             shapes: if quick { vec!["q1", "cname1+q5", "neg1-full", "err-timeout"] } else { vec!["q1", "q5", "cname1+q5", "neg1-full", "neg3", "err-timeout"] },
             dts: if quick { vec![600, 1000, 2000] } else { vec![400, 600, 1000, 2000] },
